@@ -11,6 +11,16 @@ def verdict_of(text):
     if re.search(r'^OK property', text, re.M): return 'missed'
     return 'see file'
 
+NOTES = {
+ ('C02','c02-m2-own-wal-votes-not-restored'): 'missed, judged benign for C02: the restored step keeps the validator from voting again, so no second signature follows (liveness only)',
+ ('C02','c02-m4-round-wal-not-repaired'): 'missed in the quick tier: needs two crashes with a torn round WAL each; the WAL-level consequence is covered by C03',
+ ('C03','c02-m4-round-wal-not-repaired'): 'not applicable to C03 (the mutated code is in consensus.go, walsim does not run it)',
+ ('C03','c03-m1-no-crc-check'): 'equivalent under the property crash model: a crash persists a prefix, so a torn record is always a short read; the CRC only matters for bit rot',
+ ('C07','c07-m2-equal-parent-timestamp-accepted'): 'equivalent in reach: a block whose timestamp equals its parent cannot also equal the median of correct validators vote timestamps, so the median check rejects it first',
+ ('C07','c07-m4-version-not-checked'): 'equivalent in reach: a block of another version is refused by the decoder (no handler) before import',
+ ('C08','c08-m3-btp-digest-hash-not-compared'): 'equivalent in reach: the digest hash is checked again during import (all correct validators still prevote nil); the seeded change that defeats both layers is caught (seeded/C08-digest-not-bound)',
+ ('C04','c04-m5-stale-maxindex'): 'crashes the validator (index out of range in the tally): reported as process-crash, a violation for C04 since CrashIsViolation was enabled',
+}
 rows = []
 for d in sorted(glob.glob('/verif/mutants/C*')):
     prop = os.path.basename(d)
@@ -26,13 +36,26 @@ for d in sorted(glob.glob('/verif/mutants/C*')):
                     for line in open(f'{d}/{agg}'):
                         if n.split('-')[0] + '-' in line or n in line:
                             res = line
-        rows.append((prop, n, verdict_of(res) if res else 'no result file (see engine report in DESIGN.md 12)'))
+        v = verdict_of(res) if res else 'no result file (see engine report in DESIGN.md 12)'
+        if (prop, n) in NOTES: v += ' — ' + NOTES[(prop, n)]
+        rows.append((prop, n, v))
 with open('/verif/mutants/SUMMARY.md', 'w') as f:
     f.write('# Hand-written mutants (applied through VERIF_OVERLAY, never to /repo)\n\n| property | mutant | quick check verdict |\n|---|---|---|\n')
     for r in rows: f.write('| %s | %s | %s |\n' % r)
-    c = sum(1 for r in rows if r[2] == 'caught'); m = sum(1 for r in rows if r[2] == 'missed')
+    c = sum(1 for r in rows if r[2].startswith('caught')); m = sum(1 for r in rows if r[2].startswith('missed'))
     f.write('\n%d mutants, %d caught, %d missed, %d without a machine-readable result.\n' % (len(rows), c, m, len(rows) - c - m))
 
+sNOTES = {
+ ('C02','c02-m2-own-wal-votes-not-restored'): 'missed, judged benign for C02: the restored step keeps the validator from voting again, so no second signature follows (liveness only)',
+ ('C02','c02-m4-round-wal-not-repaired'): 'missed in the quick tier: needs two crashes with a torn round WAL each; the WAL-level consequence is covered by C03',
+ ('C03','c02-m4-round-wal-not-repaired'): 'not applicable to C03 (the mutated code is in consensus.go, walsim does not run it)',
+ ('C03','c03-m1-no-crc-check'): 'equivalent under the property crash model: a crash persists a prefix, so a torn record is always a short read; the CRC only matters for bit rot',
+ ('C07','c07-m2-equal-parent-timestamp-accepted'): 'equivalent in reach: a block whose timestamp equals its parent cannot also equal the median of correct validators vote timestamps, so the median check rejects it first',
+ ('C07','c07-m4-version-not-checked'): 'equivalent in reach: a block of another version is refused by the decoder (no handler) before import',
+ ('C08','c08-m3-btp-digest-hash-not-compared'): 'equivalent in reach: the digest hash is checked again during import (all correct validators still prevote nil); the seeded change that defeats both layers is caught (seeded/C08-digest-not-bound)',
+ ('C04','c04-m5-stale-maxindex'): 'crashes the validator (index out of range in the tally): reported as process-crash, a violation for C04 since CrashIsViolation was enabled',
+}
+rows = []
 srows = []
 for d in sorted(glob.glob('/verif/seeded/*/')):
     sid = os.path.basename(d.rstrip('/'))
